@@ -22,4 +22,4 @@ For each change k = 1,2,3 deliver, under {wt}/SEED/{pid}-k/:
   - patch.diff  : `git diff` of the change against the worktree's HEAD (source files only; apply with `git apply`);
   - demo/       : a demonstration — a Rust test file (with instructions where to put it) or a small program/script — that FAILS (shows the property violated) with the change applied and PASSES without it; say exactly how to run it;
   - README.md   : what the change does, why it breaks the property, what it needs in order to manifest, and the commands you ran with their results (build, the relevant existing tests, the demo with and without the change).
-Procedure per change: apply it in the worktree, `cargo build --offline --workspace`, run at least the existing tests of every crate you touched (`cargo test --offline -p <crate>`; PTY-related tests and a few permission tests — `pty_task_*`, `*_reports_unreadable_*`, `local_authority_recovers_from_stale_lock_under_concurrency…` — already fail in this sandbox at baseline, ignore those), run your demo (must fail), revert it (`git apply -R patch.diff` or `git checkout -- <files>`; never `git stash`, `git commit`, `git reset` or branch operations: the repository's refs are shared with other checkouts), run your demo again (must pass), save the files, and leave the worktree clean (`git checkout -- . ; git status` shows only SEED/ and demo files untracked) before starting the next change.  If an existing test catches your change, discard it and design another.  Your final message: a short list of the three changes (one line each: file/function, what it needs to manifest) and the paths of the deliverables.""")
+Procedure per change: apply it in the worktree, `cargo build --offline --workspace`, run at least the existing tests of every crate you touched (`cargo test --offline -p <crate>`; PTY-related tests and a few permission tests — `pty_task_*`, `*_reports_unreadable_*`, `local_authority_recovers_from_stale_lock_under_concurrency…` — already fail in this sandbox at baseline, ignore those; the `pty_task_*` tests of ripd can HANG under plain `cargo test`, so run ripd's tests as `cargo test --offline -p ripd -- --skip pty_task`; the test `pipes_task_applies_cwd_and_env` is flaky at baseline; the machine is shared with many other jobs, so builds are slow — be patient, use generous timeouts, and build/test only the crates you need), run your demo (must fail), revert it (`git apply -R patch.diff` or `git checkout -- <files>`; never `git stash`, `git commit`, `git reset` or branch operations: the repository's refs are shared with other checkouts), run your demo again (must pass), save the files, and leave the worktree clean (`git checkout -- . ; git status` shows only SEED/ and demo files untracked) before starting the next change.  If an existing test catches your change, discard it and design another.  Your final message: a short list of the three changes (one line each: file/function, what it needs to manifest) and the paths of the deliverables.""")
